@@ -11,16 +11,50 @@ const verif::Info verif_info = {
     "C14", 420,
     "byte arrays: enumerated - every 3-byte group (2^24) alone and as the last group after a 3-byte prefix, every 2-byte and 1-byte tail, "
     "all 65536 byte pairs for hex; generated - arrays of length 0..400 with lengths spread over every residue mod 3 and around the "
-    "small-string limit of the encoded text. Oracle: RFC 4648 / lower-case hex written arithmetically, lengths 2n and 4*ceil(n/3), "
+    "small-string limit of the encoded text, 1 in 16 extended to 500..8192 bytes, input and output blocks starting at every offset 0..7 from "
+    "an 8-byte boundary (exact-size blocks); one probe of all six entry points during static initialisation (init_priority 101). Oracle: RFC 4648 / lower-case hex written arithmetically, lengths 2n and 4*ceil(n/3), "
     "decode(encode(x))==x through allocating and caller-buffer decoders, upper-case hex decodes equally. Non-trivial: length >= 1; "
     "distinct by content hash (enumerated cases are distinct by construction).",
     true, "exploration"};
 
 namespace {
 
+// The codecs must also work while static objects are being initialised (a program may decode a constant in a namespace-scope
+// initialiser): this object is constructed before ordinary namespace-scope objects of this translation unit - and before any
+// table the library might build at start-up.
+struct EarlyProbe {
+    std::string why;
+    EarlyProbe() {
+        try {
+            static const uint8_t raw[] = {0xDE, 0xAD, 0xBE, 0xEF, 0x00, 0x7F, 0x80, 0xFF, 0x41};
+            ST::string hex = ST::hex_encode(raw, sizeof raw), b64 = ST::base64_encode(raw, sizeof raw);
+            if (std::string(hex.c_str(), hex.size()) != ref::hex_encode(raw, sizeof raw)) why = "during static initialisation hex_encode gives " + std::string(hex.c_str(), hex.size());
+            else if (std::string(b64.c_str(), b64.size()) != ref::b64_encode(raw, sizeof raw)) why = "during static initialisation base64_encode gives " + std::string(b64.c_str(), b64.size());
+            else {
+                ST::char_buffer a = ST::hex_decode(hex), b = ST::base64_decode(b64), u = ST::hex_decode(ST::string("DEADBEEF007F80FF41"));
+                uint8_t out1[sizeof raw], out2[sizeof raw];
+                if (a.size() != sizeof raw || memcmp(a.data(), raw, sizeof raw) != 0) why = "during static initialisation hex_decode(hex_encode(x)) != x";
+                else if (u.size() != sizeof raw || memcmp(u.data(), raw, sizeof raw) != 0) why = "during static initialisation upper-case hex decodes to other bytes";
+                else if (b.size() != sizeof raw || memcmp(b.data(), raw, sizeof raw) != 0) why = "during static initialisation base64_decode(base64_encode(x)) != x";
+                else if (ST::hex_decode(hex, out1, sizeof out1) != (ST_ssize_t)sizeof raw || memcmp(out1, raw, sizeof raw) != 0) why = "during static initialisation hex_decode (caller buffer) != x";
+                else if (ST::base64_decode(b64, out2, sizeof out2) != (ST_ssize_t)sizeof raw || memcmp(out2, raw, sizeof raw) != 0) why = "during static initialisation base64_decode (caller buffer) != x";
+            }
+        } catch (...) { why = "during static initialisation a codec call threw"; }
+    }
+};
+__attribute__((init_priority(101))) EarlyProbe g_early;
+
 // The whole oracle for one byte array.  Returns empty string when the property holds.
-std::string check_array(const uint8_t *x, size_t n, bool null_ptr_for_empty) {
-    verif::Exact<uint8_t> in(x, n);               // exact-size: over-read => ASan
+// exact-size block whose data starts `mis` bytes after an allocation boundary (malloc results are 16-byte aligned, so a
+// word-at-a-time implementation is only exercised on its aligned path unless the start is moved); the end stays exact
+struct Misaligned {
+    uint8_t *blk; uint8_t *p; size_t n;
+    Misaligned(const uint8_t *x, size_t count, unsigned mis) : n(count) { blk = (uint8_t *)::malloc(count + mis + (count + mis == 0)); p = blk + mis; if (count) memcpy(p, x, count); }
+    ~Misaligned() { ::free(blk); }
+    uint8_t *data() { return p; }
+};
+std::string check_array(const uint8_t *x, size_t n, bool null_ptr_for_empty, unsigned mis = 0) {
+    Misaligned in(x, n, mis);                     // exact-size: over-read => ASan
     const void *ptr = (n == 0 && null_ptr_for_empty) ? nullptr : in.data();
     try {
         // --- hex
@@ -36,7 +70,7 @@ std::string check_array(const uint8_t *x, size_t n, bool null_ptr_for_empty) {
             ST::char_buffer back = ST::hex_decode(hex);
             if (back.size() != n || memcmp(back.data(), x, n) != 0) return "hex_decode(hex_encode(x)) != x (allocating form)";
             if (back.data()[n] != 0) return "hex_decode result not NUL-terminated";
-            verif::Exact<uint8_t> out(x, n); memset(out.data(), 0xA5, n);
+            Misaligned out(x, n, (mis * 3 + 1) % 8 * (mis != 0)); memset(out.data(), 0xA5, n);
             ST_ssize_t r = ST::hex_decode(hex, out.data(), n);
             if (r != (ST_ssize_t)n) return "hex_decode(caller buffer of exact size) returned " + verif::num(r) + ", expected " + verif::unum(n);
             if (memcmp(out.data(), x, n) != 0) return "hex_decode(hex_encode(x)) != x (caller-buffer form)";
@@ -57,7 +91,7 @@ std::string check_array(const uint8_t *x, size_t n, bool null_ptr_for_empty) {
             ST::char_buffer back = ST::base64_decode(b64);
             if (back.size() != n || memcmp(back.data(), x, n) != 0) return "base64_decode(base64_encode(x)) != x (allocating form)";
             if (back.data()[n] != 0) return "base64_decode result not NUL-terminated";
-            verif::Exact<uint8_t> out(x, n); memset(out.data(), 0xA5, n);
+            Misaligned out(x, n, (mis * 3 + 1) % 8 * (mis != 0)); memset(out.data(), 0xA5, n);
             ST_ssize_t r = ST::base64_decode(b64, out.data(), n);
             if (r != (ST_ssize_t)n) return "base64_decode(caller buffer of exact size) returned " + verif::num(r) + ", expected " + verif::unum(n);
             if (memcmp(out.data(), x, n) != 0) return "base64_decode(base64_encode(x)) != x (caller-buffer form)";
@@ -79,7 +113,8 @@ std::string render(const uint8_t *x, size_t n) {
 int verif_case(const uint8_t *data, size_t size, Case &c) {
     verif::Reader r(data, size, c);
     std::vector<uint8_t> x;
-    bool nullp = false;
+    bool nullp = false; unsigned mis = 0; size_t longn = 0;
+    if (!g_early.why.empty()) return c.fail(g_early.why);
     uint8_t mode = r.u8();
     if (mode == 0xFF) {                     // directed: the rest is the array itself (used by the enumerator)
         while (!r.exhausted()) x.push_back(r.u8());
@@ -88,11 +123,18 @@ int verif_case(const uint8_t *data, size_t size, Case &c) {
         static const uint16_t lens[] = {0, 1, 2, 3, 4, 5, 6, 7, 8, 9, 10, 11, 12, 13, 15, 16, 17, 31, 32, 33, 47, 48, 49, 64, 100, 127, 128, 255, 256, 257, 399, 400};
         size_t n = (mode & 1) ? r.pick(lens) : r.range(0, 40);
         nullp = (mode & 2) != 0;
+        mis = (mode >> 3) & 7;                      // start of the input / output blocks relative to an 8-byte boundary
+        if ((mode & 0xC0) == 0xC0) {                // a long array: the generated prefix repeated (word-at-a-time / block-wise code paths)
+            static const uint16_t big[] = {500, 1023, 1024, 1025, 2048, 4095, 4096, 4099, 5000, 8192};
+            longn = r.pick(big);
+        }
         static const uint8_t special[] = {0x00, 0xFF, 0x80, 0x7F, 0xFB, 0xEF, 0xBE, 0x3F, 0x3E, 0xFC};
         for (size_t i = 0; i < n; i++) {
             uint8_t b = r.u8();
             x.push_back((mode & 4) && (b & 1) ? special[(b >> 1) % 10] : b);
         }
+        if (longn && n) { size_t base = x.size(); for (size_t i = base; i < longn; i++) x.push_back((uint8_t)(x[i % base] + 31 * (i / base))); n = x.size(); c.label("long>=500"); }
+        if (mis) c.label("misaligned-start");
         c.label(n == 0 ? "len0" : n % 3 == 0 ? "len%3==0" : n % 3 == 1 ? "len%3==1" : "len%3==2");
         if (2 * n >= 14 && 2 * n <= 17) c.label("hex-at-small-string-limit");
         if (4 * ((n + 2) / 3) >= 12 && 4 * ((n + 2) / 3) <= 20) c.label("b64-at-small-string-limit");
@@ -100,7 +142,7 @@ int verif_case(const uint8_t *data, size_t size, Case &c) {
     }
     c.nontrivial = !x.empty();
     if (c.want_text) c.text = "C14 " + render(x.data(), x.size());
-    std::string why = check_array(x.data(), x.size(), nullp);
+    std::string why = check_array(x.data(), x.size(), nullp, mis);
     if (!why.empty()) return c.fail(why);
     return verif::CASE_OK;
 }
